@@ -226,7 +226,8 @@ Definition fits (p : accessor) (op : dop) : Prop :=
       | DFromSlice T off cnt =>
           (* the byte range is in the slice (the caller's part), it is exactly one T, T is not
              zero-sized (from_slice answers None for zero-sized types), and it is aligned *)
-          off + cnt <= vs_size s /\ cnt = e_size T /\ e_size T <> 0 /\ (vs_addr s + off) mod e_align T = 0
+          (off + cnt <= vs_size s /\ cnt <= ISZ_MAX) /\ cnt = e_size T /\ e_size T <> 0 /\
+          (vs_addr s + off) mod e_align T = 0
       | _ => fits_vm (vs_addr s) (vs_size s) op
       end
   | ARegion r => fits_vm (rg_addr r) (rg_size r) op
